@@ -157,17 +157,20 @@ def metrics_tables(facts, which):
 def r2_unescaped(rep, facts, g, a):
     R = rep.rule('C10/R2', 'what the writer leaves unescaped the parser accepts unescaped: basic loop bytes within basic-unescaped / '
                  'mlb-unescaped + LF, literal styles only offered for literal-char / mll-char + LF, bare keys exactly unquoted-key characters', floor=8)
-    b, m, tabs = writer_tables(facts)
-    loc = facts.loc(b)
     quote = cc(a, 'quotation-mark')
     apos = cc(a, 'apostrophe')
     lf = frozenset([0x0A])
-    for ml, allowed, what in ((False, cc(a, 'basic-unescaped'), 'basic-unescaped'), (True, cc(a, 'mlb-unescaped') | lf, 'mlb-unescaped / newline')):
-        esc, brk = tabs[ml]
-        passed = ALL - brk - quote  # the quote is governed by the run counter (R3)
-        extra = passed - allowed
-        rep.check(R, f'writer|{"ml" if ml else "basic"}|unescaped-subset', not extra, f'unescaped {fmt_set(passed)} within {what}',
-                  f'the {"multi-line " if ml else ""}basic writer leaves bytes {fmt_set(extra)} unescaped, which the parser rejects in {what}', loc)
+    try:
+        b, m, tabs = writer_tables(facts)
+        loc = facts.loc(b)
+        for ml, allowed, what in ((False, cc(a, 'basic-unescaped'), 'basic-unescaped'), (True, cc(a, 'mlb-unescaped') | lf, 'mlb-unescaped / newline')):
+            esc, brk = tabs[ml]
+            passed = ALL - brk - quote  # the quote is governed by the run counter (R3)
+            extra = passed - allowed
+            rep.check(R, f'writer|{"ml" if ml else "basic"}|unescaped-subset', not extra, f'unescaped {fmt_set(passed)} within {what}',
+                      f'the {"multi-line " if ml else ""}basic writer leaves bytes {fmt_set(extra)} unescaped, which the parser rejects in {what}', loc)
+    except (AnalysisIncomplete, Unanalysable, KeyError, IndexError, TypeError, StopIteration) as e:
+        rep.incomplete(R, 'writer|shape', f'the writer does not have the shape this part of the rule reads ({type(e).__name__}: {e})')
     # literal styles: ValueMetrics
     vb, vflags = metrics_tables(facts, 'ValueMetrics')
     vloc = facts.loc(vb)
@@ -296,29 +299,7 @@ def r3_thresholds(rep, facts, a):
                   f'expected {sorted(exp)} (a run of {maxrun + 1} would end the string early)', facts.loc(b))
         rep.check(R, last_seg(d) + '|flags', fl == flags and consistent, f'also refuses on {sorted(fl)}',
                   f'`{last_seg(d)}` refuses on metrics {sorted(fl)}, expected {sorted(flags)}' + ('' if consistent else ' (and the run length and the flags are not combined as a plain disjunction)'), facts.loc(b))
-    # the escaping loop: max_seq_double_quotes = if is_ml {2} else {0}; escape when max < seq
-    b = facts.body(W + 'write_toml_value')
-    it = Interp(Evaluator(facts))
-    let = [n for n in walk(b['body']) if n.get('k') == 'let' and n['pat'].get('k') == 'p_bind' and n['pat']['name'].startswith('max_seq_double_quotes')]
-    is_ml = local_named(b, 'is_ml')
-    ok = False
-    if let:
-        try:
-            ok = it.run(let[0]['init'], {is_ml: True}) == hi_b and it.run(let[0]['init'], {is_ml: False}) == 0
-        except Unanalysable:
-            ok = False
-    cmp_ok = False
-    for n in walk(b['body']):
-        if n.get('k') == 'if' and any(x.get('k') == 'break' for x in walk(n['then'])):
-            c = peel(n['cond'])
-            if c.get('k') == 'binary' and {(peel(c['a']).get('path') or '').split('#')[0], (peel(c['b']).get('path') or '').split('#')[0]} == {'max_seq_double_quotes', 'seq_double_quotes'}:
-                mx = peel(c['a']).get('path', '').startswith('max_')
-                cmp_ok = (c['op'] == '<' and mx) or (c['op'] == '>' and not mx)
-    rep.check(R, 'write_toml_value|quote-run', ok and cmp_ok, f'unescaped quote run limit {hi_b} (multi-line) / 0, escape when the limit is exceeded',
-              'the escaping loop no longer limits unescaped quote runs to 2 (multi-line) / 0 (single-line)', facts.loc(b))
-    # the counter resets on any other byte
-    reset = any(n.get('k') == 'assign' and (peel(n['lhs']).get('path') or '').startswith('seq_double_quotes') and peel(n['rhs']).get('v') == 0 for n in walk(b['body']))
-    rep.check(R, 'write_toml_value|run-reset', reset, 'seq_double_quotes = 0 on a non-quote byte', 'the quote-run counter is never reset', facts.loc(b))
+    # (how the escaping loop treats quote runs is decided by R9 on the text it writes for runs of 1..6 quotes in both basic styles)
 
 
 def r4_delimiters(rep, facts, a):
@@ -442,6 +423,154 @@ def r5_totality(rep, facts, a):
                   f'the default style of `{label}`: ' + '; '.join(bad[:4]), facts.loc(bd))
 
 
+def toml_decode_string(text):
+    """the string a TOML 1.0.0 string literal denotes (section `String` of the specification), or None if `text` is not of one of the four forms.
+    Written from the specification, not from the repository's parser."""
+    def unescape(body, multiline):
+        out = []
+        i = 0
+        while i < len(body):
+            c = body[i]
+            if c != '\\':
+                out.append(c)
+                i += 1
+                continue
+            n = body[i + 1:i + 2]
+            simple = {'b': '\b', 't': '\t', 'n': '\n', 'f': '\f', 'r': '\r', '"': '"', '\\': '\\'}
+            if n in simple:
+                out.append(simple[n])
+                i += 2
+            elif n == 'u' or n == 'U':
+                w = 4 if n == 'u' else 8
+                hx = body[i + 2:i + 2 + w]
+                if len(hx) != w or any(ch not in '0123456789abcdefABCDEF' for ch in hx):
+                    return None
+                cp = int(hx, 16)
+                if cp > 0x10FFFF or 0xD800 <= cp <= 0xDFFF:
+                    return None
+                out.append(chr(cp))
+                i += 2 + w
+            elif multiline:
+                # line-ending backslash: `\` ws* newline, then all whitespace and newlines are trimmed
+                j = i + 1
+                while j < len(body) and body[j] in ' \t':
+                    j += 1
+                if body[j:j + 1] == '\n' or body[j:j + 2] == '\r\n':
+                    while j < len(body) and body[j] in ' \t\r\n':
+                        j += 1
+                    i = j
+                else:
+                    return None
+            else:
+                return None
+        return ''.join(out)
+    for delim, ml, esc in (('"""', True, True), ("'" * 3, True, False), ('"', False, True), ("'", False, False)):
+        if text.startswith(delim) and text.endswith(delim) and len(text) >= 2 * len(delim):
+            body = text[len(delim):len(text) - len(delim)]
+            if ml:
+                if body.startswith('\r\n'):
+                    body = body[2:]
+                elif body.startswith('\n'):
+                    body = body[1:]
+            return unescape(body, ml) if esc else body
+    return None
+
+
+def writer_progress(facts):
+    """problems (panics, loops that go round without shortening what they work on) met while evaluating the escaping writer on every one-byte ASCII string,
+    multi-byte characters and pairs of the characters that matter, in both basic styles: [] when there are none.  (number of runs, problems)"""
+    from .den import RecInterp, EvalPanic
+    b = facts.body(W + 'write_toml_value')
+    E = 'toml_write::string::Encoding::'
+    pieces = ['a', '"', '""', '"' * 3, '\\', '\n', '\x01', '\x7f', '\u00e9', '\U0001F600', '\r']
+    samples = [''] + [chr(c) for c in range(128)] + [x + y for x in pieces for y in pieces]
+    problems = []
+    n = 0
+    for text in samples:
+        for enc in ('BasicString', 'MlBasicString', 'LiteralString', 'MlLiteralString'):
+            rec = RecInterp(Evaluator(facts), {'write_str'})
+            rec.watch_progress = True
+            n += 1
+            try:
+                rec.apply_fn(b, [text, ('ctor', SOME, (('ctor', E + enc),)), False, ('opaque',)])
+            except EvalPanic as ex:
+                problems.append(f'{text!r} as {enc}: {ex}')
+    return n, problems
+
+
+def r9_written_text(rep, facts, a):
+    R = rep.rule('C10/R9', 'what is written reads back: for sample strings and keys, every style the builders offer is evaluated down to the text the writer emits '
+                 '(builder -> style -> write_toml_value / write_toml_key, with the writes recorded); that text must be a `string` resp. `simple-key` of the ABNF '
+                 'and must denote the sample under the specification\'s decoding rules (a decoder written from the specification, independent of the parser)', floor=4)
+    from .den import RecInterp, EvalPanic
+    from . import regular as rg
+    aa = rg.AbnfAutomata(a, {})
+    autos = {}
+
+    def member(rule, text):
+        if rule not in autos:
+            n = rg.NFA()
+            autos[rule] = (n, aa.build(n, rule, root=True))
+        n, f = autos[rule]
+        return rg.accepts(n, f, text.encode('utf-8'))
+    pieces = ['a', "'", "''", "'" * 3, '"', '""', '"' * 3, '\\', '\n', '\r\n', '\x01', '\t', ' ', 'é', '\x7f', '-', '\r', 'u0041', ' ', '😀']
+    samples = [''] + [chr(c) for c in range(128) if chr(c) not in pieces] + ['\x80', '\xff', '\u2028', '\ufeff', 'x\x1by', 'x\x00'] + pieces + [x + y for x in pieces for y in pieces] + ['a' + x + 'b' + y for x in ("'" * 3, '"' * 3, '\\', '\n') for y in ("'", '"', '\\', '\n', '')]
+    plan = (("TomlStringBuilder::<'s>", ('as_default', 'as_literal', 'as_ml_literal', 'as_basic_pretty', 'as_ml_basic_pretty', 'as_basic', 'as_ml_basic'), 'string',
+             [d for d in facts.bodies if d.endswith('::write_toml_value') and 'TomlString<' in d]),
+            ("TomlKeyBuilder::<'s>", ('as_default', 'as_unquoted', 'as_literal', 'as_basic_pretty', 'as_basic'), 'simple-key',
+             [d for d in facts.bodies if d.endswith('::write_toml_key') and 'TomlKey<' in d]))
+    for B, methods, rule, writers in plan:
+        label = B.split('::<')[0]
+        if len(writers) != 1 or not facts.has_body(W + B + '::new'):
+            rep.incomplete(R, label, f'writer impl or builder of `{label}` not found')
+            continue
+        bn, bw = facts.body(W + B + '::new'), facts.body(writers[0])
+        bad = []
+        n_written = 0
+        offered = {m: 0 for m in methods}
+        try:
+            for text in samples:
+                it = FxInterp(Evaluator(facts))
+                builder = it.apply_fn(bn, [text])
+                for m in methods:
+                    d = W + B + '::' + m
+                    if not facts.has_body(d):
+                        continue
+                    try:
+                        r = FxInterp(Evaluator(facts)).apply_fn(facts.body(d), [builder])
+                    except EvalPanic as ex:
+                        bad.append(f'{m}({text!r}) panics: {ex}')
+                        continue
+                    if isinstance(r, tuple) and r[:2] == ('ctor', 'core::option::Option::None'):
+                        continue
+                    style = r[2][0] if isinstance(r, tuple) and r[:2] == ('ctor', SOME) else r
+                    if not (isinstance(style, tuple) and len(style) == 3 and style[0] == 'struct'):
+                        raise Unanalysable(f'{m} evaluates to {r!r:.60}')
+                    rec = RecInterp(Evaluator(facts), {'write_str'})
+                    rec.watch_progress = True
+                    try:
+                        rec.apply_fn(bw, [style, ('opaque',)])
+                    except EvalPanic as ex:
+                        bad.append(f'writing {text!r} as {m} panics: {ex}')
+                        continue
+                    out = ''.join(x[0] for nm, x in rec.calls if nm == 'write_str')
+                    offered[m] += 1
+                    n_written += 1
+                    if not member(rule, out):
+                        bad.append(f'{m}({text!r}) is written {out!r}, which is not a `{rule}` of the grammar')
+                        continue
+                    back = out if (rule == 'simple-key' and not out[:1] in ('"', "'")) else toml_decode_string(out)
+                    if back != text:
+                        bad.append(f'{m}({text!r}) is written {out!r}, which reads back as {back!r}')
+        except Unanalysable as ex:
+            rep.incomplete(R, label, f'cannot evaluate the writer of `{label}`: {ex}', facts.loc(bw))
+            continue
+        rep.check(R, label + '|reads-back', not bad, f'{n_written} written texts of {len(samples)} samples are grammatical and denote the sample ({offered})',
+                  f'`{label}`: ' + '; '.join(bad[:3]) + (f' (+{len(bad) - 3} more)' if len(bad) > 3 else ''), facts.loc(bw))
+        total = [m for m in methods if m in ('as_default', 'as_basic', 'as_ml_basic') and offered[m] != len(samples)]
+        rep.check(R, label + '|total-styles', not total, 'as_default / as_basic (/ as_ml_basic) exist for every sample', f'`{label}`: {total} refuse some samples ({offered})', facts.loc(bn))
+
+
 def r6_delegation(rep, facts):
     R = rep.rule('C10/R6', 'toml_edit\'s default representations of strings and keys delegate to these builders', floor=2)
     targets = {'String': ('TomlStringBuilder', 'as_default'), 'Key': ('TomlKeyBuilder', 'as_default')}
@@ -520,18 +649,32 @@ def r7_run_metric(rep, facts):
                    f'(a long run followed by a shorter one is forgotten, so a literal style is offered for text containing its own delimiter)') if bad_max else '', loc)
 
 
+# rules that read the *shape* of write_toml_value / the metrics loop (one `match` over the byte, named run counters).  R9 decides the same questions on the
+# text that is written; when it holds for every sample, a shape these rules do not recognise is a note, not a failure (a shape they do recognise and
+# find wrong is still a violation)
+SHAPE_RULES = ('C10/R1', 'C10/R2', 'C10/R4', 'C10/R7')
+
+
+def _shape(rep, fn, rid, *args):
+    try:
+        fn(rep, *args)
+    except (AnalysisIncomplete, Unanalysable, KeyError, IndexError, TypeError, StopIteration) as e:
+        rep.incomplete(rid, 'shape', f'the writer does not have the shape this rule reads ({type(e).__name__}: {e})')
+
+
 def rules(rep, facts):
     if 'toml_write' not in facts.crates:
         return
     a = Abnf()
     r3_thresholds(rep, facts, a)
-    r4_delimiters(rep, facts, a)
+    _shape(rep, r4_delimiters, 'C10/R4', facts, a)
     r5_totality(rep, facts, a)
-    r7_run_metric(rep, facts)
+    r9_written_text(rep, facts, a)
+    _shape(rep, r7_run_metric, 'C10/R7', facts)
     feats = set(facts.crates.get('toml_edit', {}).get('features', []))
     if 'toml_edit' in facts.crates and {'parse', 'display'} <= feats:
         g = pm.model(facts)
-        r1_inverse(rep, facts, g, a)
+        _shape(rep, r1_inverse, 'C10/R1', facts, g, a)
         r2_unescaped(rep, facts, g, a)
         r6_delegation(rep, facts)
         # the reader side of every style: the string parsers accept exactly the ABNF string rules (shared with C01/R10)
@@ -539,6 +682,17 @@ def rules(rep, facts):
         r10_regular_language(rep, g, a, only_prefix='strings::', rid='C10/R8')
     else:
         rep.notes.append(f'configuration {facts.config}: parser not compiled, reader-side comparisons skipped.')
+    r9 = rep.rules.get('C10/R9', {}).get('obligations', [])
+    if r9 and all(o['ok'] for o in r9):
+        for rid in SHAPE_RULES:
+            gone = [v for v in rep.violations if v['rule'] == rid and v['kind'] == 'analysis-incomplete']
+            if gone:
+                rep.violations[:] = [v for v in rep.violations if v not in gone]
+                if rid in rep.rules:
+                    rep.rules[rid]['floor'] = None
+                    rep.rules[rid]['obligations'] = [o for o in rep.rules[rid]['obligations'] if o['ok']]
+                rep.notes.append(f'{rid} reads the shape of the escaping writer / metrics loop and does not recognise it in this tree ({gone[0]["detail"][:160]}); '
+                                 f'the question is decided by C10/R9 on the written text.')
 
 
 def _witnesses(rep):
